@@ -604,7 +604,13 @@ func (p *Parser) reset() {
 func (p *Parser) nextPos() Pos {
 	// Basic protection against offset overflow;
 	// note that an offset of 0 is valid, so we leave the maximum.
-	offset := min(p.offs+int64(p.bsp)-int64(p.w), offsetMax)
+	back := int64(p.w)
+	if p.r == escNewl {
+		// An escaped newline is one byte longer than its width, which only
+		// covers the newline so that the column counts stay right.
+		back++
+	}
+	offset := min(p.offs+int64(p.bsp)-back, offsetMax)
 	var line, col uint
 	if p.line <= lineMax {
 		line = uint(p.line)
